@@ -56,15 +56,15 @@ SCENARIOS = {
                      "C02_by_vector", "C02_by_item"],
         "quick": [hist("c02", 120, extra=T1), hist("c02", 20), hist("c14", 8, extra=T1)],
         "thorough": [hist("c02", 480, "thorough", extra=T1), hist("c02", 120, "thorough")],
-        "counts": ["C02", "C01"],
+        "counts": ["C02", "C01", "C11", "C12"],
     },
     "C03": {
         "modules": ["C03", "Reachable", "C03Bq", "C03Sorted", "Checkers", "C03History"],
         "theorems": ["C03_history_wellformed", "C03_history_filter_exact", "C03_history_monotone", "C03_history_by_item", "C03_reported_sorted", "C03_reported_sorted_scores", "C03_by_item_eq_by_vector_bq", "C03_by_item_eq_by_vector_reachable", "C03_total_reachable", "C03_filter_exact_reachable", "C03_monotone_reachable", "C03_wellformed", "C03_total", "C03_filter_exact", "C03_default_budget", "C03_by_item_absent",
                      "C03_by_item_present", "C03_by_item_eq_by_vector", "C03_prefix", "C03_monotone", "C03_budget_le"],
         "quick": [hist("c03", 100, extra=T1)],
+        "counts": ["C03", "C11", "C12"],
         "thorough": [hist("c03", 400, "thorough", extra=T1), hist("c03", 80, "thorough")],
-        "counts": ["C03"],
     },
     "C07": {
         "modules": ["C07", "C07Nns"],
@@ -194,8 +194,8 @@ SCENARIOS = {
         "counts": ["C19"],
     },
     "C16": {
-        "modules": ["C16", "C16Codec"],
-        "theorems": ["C16_roaring_roundtrip", "C16_val_roundtrip", "C16_node_roundtrip", "C16_meta_roundtrip", "C16_vec_roundtrip",
+        "modules": ["C16", "C16Codec", "C16Reachable"],
+        "theorems": ["C16_reachable_keys", "C16_reachable_values", "C16_reachable_dump", "C16_roaring_roundtrip", "C16_val_roundtrip", "C16_node_roundtrip", "C16_meta_roundtrip", "C16_vec_roundtrip",
                      "C16_roaring_size", "C16_roaring_offsets", "C16_layout", "C16_key_len", "C16_key_order", "C16_key_roundtrip", "C16_key_inj",
                      "C16_nodeid_roundtrip", "C16_version_roundtrip"],
         "quick": [{"name": "keys", "args": ["keys", "--seed", "{seed}"]}, hist("c16", 60, extra=["--threads", "1"])] + FIXTURES,
